@@ -127,19 +127,23 @@ theorem row_roundtrip (cells : List (Option Bytes)) (hmax : cells.length ≤ Gen
 
 /-- the 256-row tiles concatenate back to the table, for any number of rows. -/
 theorem tiles_cover {α} (data : List α) : (tiles data).flatMap (·.2) = data := by
-  have := tileLoop_cover data (data.length + 2) 0 (Nat.zero_le _)
-    (by have := Nat.div_le_self data.length 256; omega)
-  simpa [tiles] using this
+  by_cases hn : data.length = 0
+  · have : data = [] := List.length_eq_zero_iff.mp hn
+    subst this; simp [tiles, tileLoop_empty]
+  · have := tileLoop_cover data hn (data.length + 2) 0 (Nat.zero_le _)
+      (by have := Nat.div_le_self (data.length - 1) 256; omega)
+    simpa [tiles] using this
 
 /-- no tile holds more than 256 rows. -/
 theorem tiles_bounded {α} (data : List α) : ∀ t ∈ tiles data, t.2.length ≤ 256 :=
   tileLoop_bounded data _ 0
 
-/-- `len // 256 + 1` tiles are written (so a table whose row count is a multiple of 256 gets one
-    trailing empty tile — harmless for reading, noted for C07). -/
-theorem tiles_count {α} (data : List α) : (tiles data).length = data.length / 256 + 1 := by
-  have := tileLoop_length data (data.length + 2) 0 (Nat.zero_le _)
-    (by have := Nat.div_le_self data.length 256; omega)
+/-- exactly `ceil(len / 256)` tiles are written: a table whose row count is a multiple of 256
+    gets no trailing empty tile (as repaired; the pinned code wrote `len // 256 + 1` tiles). -/
+theorem tiles_count {α} (data : List α) (hn : data.length ≠ 0) :
+    (tiles data).length = (data.length - 1) / 256 + 1 := by
+  have := tileLoop_length data hn (data.length + 2) 0 (Nat.zero_le _)
+    (by have := Nat.div_le_self (data.length - 1) 256; omega)
   simpa [tiles] using this
 
 /-! ### non-vacuity -/
@@ -158,7 +162,7 @@ example : rowBuffers [1, 2, 3, 4, 5, 6, 7, 8, 9, 10, 11, 12] [0, 0, 0xff, 0xff, 
     = .ok [some [1, 2, 3, 4], none, some [5, 6, 7, 8, 9, 10, 11, 12]] := by decide
 example : (tiles (List.range 513)).map (fun t => (t.1, t.2.length)) = [(0, 256), (1, 256), (2, 1)] := by
   decide +kernel
-example : (tiles (List.range 512)).map (fun t => (t.1, t.2.length)) = [(0, 256), (1, 256), (2, 0)] := by
+example : (tiles (List.range 512)).map (fun t => (t.1, t.2.length)) = [(0, 256), (1, 256)] := by
   decide +kernel
 
 end NumbersModel.Props.C01
